@@ -2,6 +2,7 @@
 Package parser implements a parser for JavaScript.
 
 	import (
+	"strings"
 	    "github.com/robertkrimen/otto/parser"
 	)
 
@@ -38,6 +39,7 @@ import (
 	"fmt"
 	"io"
 	"os"
+	"strings"
 
 	"github.com/robertkrimen/otto/ast"
 	"github.com/robertkrimen/otto/file"
@@ -210,6 +212,25 @@ func ParseFile(fileSet *file.FileSet, filename string, src interface{}, mode Mod
 //
 // The parameter list, if any, should be a comma-separated list of identifiers.
 func ParseFunction(parameterList, body string) (*ast.FunctionLiteral, error) {
+	// The parameters must be complete on their own (15.3.2.1): they are parsed
+	// first (with a line break before ")", so that a trailing line comment is
+	// harmless) and only their names are glued to the body, so that a comment
+	// opened in them cannot swallow the glue.
+	only, err := newParser("", "(function("+parameterList+"\n) {\n})", 1, nil).parse()
+	if err != nil {
+		return nil, err
+	}
+	if len(only.Body) == 1 {
+		if statement, ok := only.Body[0].(*ast.ExpressionStatement); ok {
+			if function, ok := statement.Expression.(*ast.FunctionLiteral); ok && function.ParameterList != nil {
+				names := make([]string, 0, len(function.ParameterList.List))
+				for _, identifier := range function.ParameterList.List {
+					names = append(names, identifier.Name)
+				}
+				parameterList = strings.Join(names, ",")
+			}
+		}
+	}
 	src := "(function(" + parameterList + ") {\n" + body + "\n})"
 
 	p := newParser("", src, 1, nil)
